@@ -257,6 +257,14 @@ def selftest(ctx):
         found = (not r["ok"]) and "Invariant MonOK is violated" in r["out"] and "response reported sent but lost" in r["out"]
         log("selftest model: %s -> %s" % (what, "MonOK violated: response reported sent but lost (expected)" if found else "NOT violated"))
         ok &= found
+    # the drain in on_connection_closed swallows failed futures of other peers (seeded change C13e)
+    r = tlc_mc(ctx, "ReqRespMC.tla", write_cfg(ctx, "negd.cfg", dict(BASEC, Peers="<- TwoPeers", MaxReq=2, Bugs="<- DrainAll"),
+                                               ["SPECIFICATION Spec", "INVARIANTS MonOK QuiesceStrict", "VIEW View", "CHECK_DEADLOCK FALSE"] + MV),
+               workers=4, timeout=600, expect_violation=True)
+    found = (not r["ok"]) and "Invariant QuiesceStrict is violated" in r["out"]
+    log("selftest model: failed request futures of other peers dropped by the drain of on_connection_closed (2 peers) -> %s" %
+        ("QuiesceStrict violated (expected)" if found else "NOT violated"))
+    ok &= found
     # on_connection_closed filters pending_outbound with the inverted predicate (seeded change C13d): with two peers
     # the healthy peer's opening request loses its context
     r = tlc_mc(ctx, "ReqRespMC.tla", write_cfg(ctx, "negf.cfg", dict(BASEC, Peers="<- TwoPeers", MaxReq=2, Bugs="<- InvFilter"),
@@ -278,8 +286,8 @@ def selftest(ctx):
         ("on_substream_event does not remove the request from `active` (second terminal event on close)",
          "         /\\ active' = [active EXCEPT ![p] = @ \\ {r}]\n         /\\ mon' = CASE res", "         /\\ active' = active\n         /\\ mon' = CASE res", "MonOK"),
         ("on_connection_closed forgets the active requests (silence)",
-         "       /\\ mon' = FailEvs(FoldSet(LAMBDA r, acc : MonResp(acc, R, r, A(r)), mon, ar), active[p] \\ (ar \\cup cr))",
-         "       /\\ mon' = FoldSet(LAMBDA r, acc : MonResp(acc, R, r, A(r)), mon, ar)", "QuiesceStrict"),
+         "       /\\ mon' = FailEvs(FailEvs(FoldSet(LAMBDA r, acc : MonResp(acc, R, r, A(r)), mon, resp), failO), flush)",
+         "       /\\ mon' = FailEvs(FoldSet(LAMBDA r, acc : MonResp(acc, R, r, A(r)), mon, resp), failO)", "QuiesceStrict"),
         ("responder bound compares with > instead of >=",
          "Cardinality(inb[p]) >= MaxConc", "Cardinality(inb[p]) > MaxConc", "MonOK"),
         ("a canceled request still reports an event (fine) and a response is delivered to the wrong request id",
